@@ -164,10 +164,11 @@ def execute(case):
             elif got != exp_rows:
                 res.violate("split:wrong-groups-or-order", f"split gave {canon.short(got, 500)} expected {canon.short(exp_rows, 500)}; {ctx}")
         else:
-            out = df.group_by(*by).modify(f=lambda d: d.nrow, s=lambda d: int(d._rid_.sum()), r=lambda d: d._rid_)
+            out = df.group_by(*by).modify(f=lambda d: d.nrow, s=lambda d: int(d._rid_.sum()), r=lambda d: d._rid_,
+                                          h=lambda d: 1 if d.nrow == 1 else d._rid_ / 2)
             oc = canon.frame_cells(out)
             names = [s[0] for s in spec]
-            if list(oc) != names + ["f", "s", "r"]:
+            if list(oc) != names + ["f", "s", "r", "h"]:
                 res.violate("modify:wrong-columns", f"{list(oc)}; {ctx}")
                 return res.dict()
             for n in names:
@@ -183,8 +184,12 @@ def execute(case):
             r = [c[1] for c in oc["r"]]
             f_ = [c[1] for c in oc["f"]]
             s_ = [c[1] for c in oc["s"]]
+            h_ = [c[1] if c != canon.NA else None for c in oc["h"]]
+            h_exp = [1 if size[i] == 1 else i / 2 for i in range(nrow)]
             if r != list(range(nrow)):
                 res.violate("modify:misaligned", f"group-wise vector result not aligned with original rows: r={r}; {ctx}")
+            elif h_ != h_exp:
+                res.violate("modify:wrong-group-values:mixed-result-dtypes", f"h (1 for single-row groups, rid/2 otherwise) = {h_} expected {h_exp}; {ctx}")
             elif f_ != [size[i] for i in range(nrow)] or s_ != [ssum[i] for i in range(nrow)]:
                 res.violate("modify:wrong-group-values", f"f={f_} s={s_} expected {[size[i] for i in range(nrow)]} {[ssum[i] for i in range(nrow)]}; {ctx}")
     except Exception as e:
